@@ -186,6 +186,11 @@ class Evaluator:
         if step.kind == "case":
             case = step.node
             assert isinstance(case, ast.match_case) and step.subject is not None
+            ov = st.overrides.get(f"{src(step.subject)} ~ {src(case.pattern)}")
+            if isinstance(ov, ConstVal):
+                if ov.value:
+                    return True if (case.guard is None or step.value) else None
+                return False
             v = self.value(step.subject, st)
             if isinstance(v, ClsVal) and v.classes:
                 rs = {self.k.pattern_matches(self.module, case.pattern, c) for c in v.classes}
